@@ -261,6 +261,10 @@ def extra_scaling_probe(eng, tier, seed):
         yield "struct{uint3[<=K], E[K], uint7}", lambda: struct("Outer", S.VariableLengthArrayType(u(3), K),
                                                                S.FixedLengthArrayType(e1, K), u(7))
         yield "delimited(extent 8K)", lambda: S.DelimitedType(struct("D", u(8)), 8 * K)
+        # many consecutive variable-length arrays of sub-byte elements (every residue occurs in every field): the cost of
+        # the residue computation must stay a sum over the fields, not a product
+        yield "struct{12 x uintN[<=K] (N = 3, 1, 5, 7 ...)}[<=3]", lambda: S.VariableLengthArrayType(
+            struct("Wide", *[S.VariableLengthArrayType(u((3, 1, 5, 7)[i % 4]), K) for i in range(12)]), 3)
 
     def queries(t):
         b = t.bit_length_set
